@@ -20,28 +20,83 @@ import (
 	"golang.org/x/telemetry/internal/verifh/shim/vsched"
 )
 
+// every Status* and Method* constant of net/http
 const (
-	StatusOK                  = http.StatusOK
-	StatusCreated             = http.StatusCreated
-	StatusAccepted            = http.StatusAccepted
-	StatusNoContent           = http.StatusNoContent
-	StatusMovedPermanently    = http.StatusMovedPermanently
-	StatusFound               = http.StatusFound
-	StatusBadRequest          = http.StatusBadRequest
-	StatusUnauthorized        = http.StatusUnauthorized
-	StatusForbidden           = http.StatusForbidden
-	StatusNotFound            = http.StatusNotFound
-	StatusRequestTimeout      = http.StatusRequestTimeout
-	StatusTooManyRequests     = http.StatusTooManyRequests
-	StatusInternalServerError = http.StatusInternalServerError
-	StatusBadGateway          = http.StatusBadGateway
-	StatusServiceUnavailable  = http.StatusServiceUnavailable
-	StatusGatewayTimeout      = http.StatusGatewayTimeout
+	StatusAccepted                      = http.StatusAccepted
+	StatusAlreadyReported               = http.StatusAlreadyReported
+	StatusBadGateway                    = http.StatusBadGateway
+	StatusBadRequest                    = http.StatusBadRequest
+	StatusConflict                      = http.StatusConflict
+	StatusContinue                      = http.StatusContinue
+	StatusCreated                       = http.StatusCreated
+	StatusEarlyHints                    = http.StatusEarlyHints
+	StatusExpectationFailed             = http.StatusExpectationFailed
+	StatusFailedDependency              = http.StatusFailedDependency
+	StatusForbidden                     = http.StatusForbidden
+	StatusFound                         = http.StatusFound
+	StatusGatewayTimeout                = http.StatusGatewayTimeout
+	StatusGone                          = http.StatusGone
+	StatusHTTPVersionNotSupported       = http.StatusHTTPVersionNotSupported
+	StatusIMUsed                        = http.StatusIMUsed
+	StatusInsufficientStorage           = http.StatusInsufficientStorage
+	StatusInternalServerError           = http.StatusInternalServerError
+	StatusLengthRequired                = http.StatusLengthRequired
+	StatusLocked                        = http.StatusLocked
+	StatusLoopDetected                  = http.StatusLoopDetected
+	StatusMethodNotAllowed              = http.StatusMethodNotAllowed
+	StatusMisdirectedRequest            = http.StatusMisdirectedRequest
+	StatusMovedPermanently              = http.StatusMovedPermanently
+	StatusMultiStatus                   = http.StatusMultiStatus
+	StatusMultipleChoices               = http.StatusMultipleChoices
+	StatusNetworkAuthenticationRequired = http.StatusNetworkAuthenticationRequired
+	StatusNoContent                     = http.StatusNoContent
+	StatusNonAuthoritativeInfo          = http.StatusNonAuthoritativeInfo
+	StatusNotAcceptable                 = http.StatusNotAcceptable
+	StatusNotExtended                   = http.StatusNotExtended
+	StatusNotFound                      = http.StatusNotFound
+	StatusNotImplemented                = http.StatusNotImplemented
+	StatusNotModified                   = http.StatusNotModified
+	StatusOK                            = http.StatusOK
+	StatusPartialContent                = http.StatusPartialContent
+	StatusPaymentRequired               = http.StatusPaymentRequired
+	StatusPermanentRedirect             = http.StatusPermanentRedirect
+	StatusPreconditionFailed            = http.StatusPreconditionFailed
+	StatusPreconditionRequired          = http.StatusPreconditionRequired
+	StatusProcessing                    = http.StatusProcessing
+	StatusProxyAuthRequired             = http.StatusProxyAuthRequired
+	StatusRequestEntityTooLarge         = http.StatusRequestEntityTooLarge
+	StatusRequestHeaderFieldsTooLarge   = http.StatusRequestHeaderFieldsTooLarge
+	StatusRequestTimeout                = http.StatusRequestTimeout
+	StatusRequestURITooLong             = http.StatusRequestURITooLong
+	StatusRequestedRangeNotSatisfiable  = http.StatusRequestedRangeNotSatisfiable
+	StatusResetContent                  = http.StatusResetContent
+	StatusSeeOther                      = http.StatusSeeOther
+	StatusServiceUnavailable            = http.StatusServiceUnavailable
+	StatusSwitchingProtocols            = http.StatusSwitchingProtocols
+	StatusTeapot                        = http.StatusTeapot
+	StatusTemporaryRedirect             = http.StatusTemporaryRedirect
+	StatusTooEarly                      = http.StatusTooEarly
+	StatusTooManyRequests               = http.StatusTooManyRequests
+	StatusUnauthorized                  = http.StatusUnauthorized
+	StatusUnavailableForLegalReasons    = http.StatusUnavailableForLegalReasons
+	StatusUnprocessableEntity           = http.StatusUnprocessableEntity
+	StatusUnsupportedMediaType          = http.StatusUnsupportedMediaType
+	StatusUpgradeRequired               = http.StatusUpgradeRequired
+	StatusUseProxy                      = http.StatusUseProxy
+	StatusVariantAlsoNegotiates         = http.StatusVariantAlsoNegotiates
 
-	MethodGet  = http.MethodGet
-	MethodHead = http.MethodHead
-	MethodPost = http.MethodPost
-	MethodPut  = http.MethodPut
+	MethodGet     = http.MethodGet
+	MethodHead    = http.MethodHead
+	MethodPost    = http.MethodPost
+	MethodPut     = http.MethodPut
+	MethodPatch   = http.MethodPatch
+	MethodDelete  = http.MethodDelete
+	MethodConnect = http.MethodConnect
+	MethodOptions = http.MethodOptions
+	MethodTrace   = http.MethodTrace
+
+	DefaultMaxHeaderBytes = http.DefaultMaxHeaderBytes
+	TimeFormat            = http.TimeFormat
 )
 
 type (
